@@ -103,6 +103,10 @@ def run(rep, f, c, rule='R-ASCIICOPY', want=lambda n: True):
                 else:
                     rd, wr = tup[2][1], tup[2][2]
                     wr_ok = (dst_pos is not None and wr == dst_pos) or (wr[0] == 'call' and (wr[1] or '').endswith('ByteDestination::written') and _bare(wr[2][0]) == ('loc', 2))
+                    # ... or what the destination's own space check reports as written in its Full answer (R-HANDLE: Full carries written())
+                    if not wr_ok and wr[0] == 'fld' and wr[2] == '0' and wr[1][0] == 'as' and wr[1][2] == 'Full' and wr[1][1][0] == 'call' and \
+                            '::check_space_' in (wr[1][1][1] or '') and _bare(wr[1][1][2][0]) == (('loc', 1) if from_side else ('loc', 2)):
+                        wr_ok = True
                     if rd != src_pos:
                         bad.append(('the read count reported with Stop is not the source position: %s' % expr_str(rd, b)[:60], at))
                     if not wr_ok:
